@@ -143,6 +143,13 @@ def main(argv=None):
                         n_obl += 1
                     violations.append(ob)
             else:
+                nn = norm_ob_name(ob.name)
+                hit = next((k for k in known if fnmatch.fnmatch(nn, k["obligation"]) or fnmatch.fnmatch(ob.name, k["obligation"])), None)
+                if hit is not None:
+                    # an instance of a clause already recorded as a known finding that the short attempt could not decide: it belongs
+                    # to that finding (other instances of the same clause are refuted), it is not a new, undecided obligation
+                    known_hits.append((hit, ob))
+                    continue
                 if counted:
                     n_obl += 1
                 undecided.append(f"{ob.name}: undecided ({ob.meta.get('tried')})")
@@ -294,7 +301,12 @@ def _worker(job):
         r = _Res()
         r.unit, r.status, r.detail, r.obligations, r.gen_time, r.info = getattr(u, "name", str(ui)), "engine-error", f"{type(e).__name__}: {e}\n{traceback.format_exc()}", [], 0.0, {}
         rs = [r]
+    known_pats = [k["obligation"] for k in load_known() if k.get("status") == "known"]
     for r in rs:
+        for ob in r.obligations:
+            nn = norm_ob_name(ob.name)
+            if any(fnmatch.fnmatch(nn, pat) or fnmatch.fnmatch(ob.name, pat) for pat in known_pats):
+                ob.meta["known_pattern"] = True
         todo = [ob for ob in r.obligations if ob.verdict is None]
         discharge(todo, thorough=(tier == "thorough"), workers=inner)
         obs = []
